@@ -14,6 +14,9 @@ pub enum TOp {
     LPop,
     SPush(u8),
     SPop,
+    /// push into the local queue of ANOTHER logical thread (target = (this + 1 + d) mod n),
+    /// priority index: what a task submitter does to a pool's queue
+    FPush(u8, u8),
 }
 
 impl TOp {
@@ -23,6 +26,7 @@ impl TOp {
             TOp::LPop => "local-pop",
             TOp::SPush(_) => "shared-push",
             TOp::SPop => "shared-pop",
+            TOp::FPush(..) => "foreign-local-push",
         }
     }
 }
@@ -63,6 +67,10 @@ pub struct RunOut {
     pub trace: Vec<(u8, u8)>,
     pub push_after_victim: bool,
     pub budget: u64,
+    /// owner operations of one ring that overlapped (st3 allows one owner at a time)
+    pub owner_overlaps: i64,
+    pub foreign_pushes: u64,
+    pub lock_contended: u64,
 }
 
 pub fn c04_budget(c: &Case) -> u64 {
@@ -142,6 +150,7 @@ struct SharedState {
     panic: Mutex<Option<(usize, usize, String, String, i64)>>,
     counters: Mutex<Counters>,
     shared_pushes_direct: AtomicUsize,
+    foreign_pushes: AtomicUsize,
 }
 
 fn do_op(
@@ -149,12 +158,13 @@ fn do_op(
     k: usize,
     op: TOp,
     shared: &Shared,
-    local: &Local,
+    locals: &[Local],
     st: &SharedState,
     budget: u64,
     live: &AtomicI64,
 ) -> bool {
     let id = (t as u32) * 1000 + k as u32;
+    let local = &locals[t];
     shim_sched::set_budget(budget);
     let r = std::panic::catch_unwind(std::panic::AssertUnwindSafe(|| match op {
         TOp::LPush(p) => {
@@ -165,6 +175,15 @@ fn do_op(
             st.origin.lock().unwrap().insert(id, t);
             live.fetch_add(1, Ordering::SeqCst);
             local.push(p, id);
+        }
+        TOp::FPush(d, p) => {
+            let n = locals.len();
+            let target = if n > 1 { (t + 1 + usize::from(d) % (n - 1)) % n } else { t };
+            st.pushed.lock().unwrap().push(id);
+            st.origin.lock().unwrap().insert(id, target);
+            st.foreign_pushes.fetch_add(1, Ordering::SeqCst);
+            live.fetch_add(1, Ordering::SeqCst);
+            locals[target].push(p, id);
         }
         TOp::SPush(p) => {
             st.pushed.lock().unwrap().push(id);
@@ -211,8 +230,10 @@ pub fn run_case(c: &Case, budget: u64, forced: Option<Vec<u8>>) -> RunOut {
     let cap = c.cap.max(1) as usize;
     let inj = Arc::new(AtomicI64::new(0));
     let rings = Arc::new(AtomicI64::new(0));
+    let overlaps = Arc::new(AtomicI64::new(0));
     crossbeam_deque::set_group(Some(inj.clone()));
     st3::fifo::set_group(Some(rings.clone()));
+    st3::fifo::set_overlap_counter(Some(overlaps.clone()));
     shim_sched::reset_thread_state();
     let (shared, locals): (Shared, Vec<Local>) = if c.ordered {
         let s: &'static OrderedWorkStealQueue<u32> = Box::leak(Box::new(OrderedWorkStealQueue::new(n, cap)));
@@ -230,6 +251,7 @@ pub fn run_case(c: &Case, budget: u64, forced: Option<Vec<u8>>) -> RunOut {
         panic: Mutex::new(None),
         counters: Mutex::default(),
         shared_pushes_direct: AtomicUsize::new(0),
+        foreign_pushes: AtomicUsize::new(0),
     };
     let live = AtomicI64::new(0);
     let mut out = RunOut { budget, ..Default::default() };
@@ -249,7 +271,7 @@ pub fn run_case(c: &Case, budget: u64, forced: Option<Vec<u8>>) -> RunOut {
             let t = run[(b as usize * run.len()) >> 8];
             let k = pos[t];
             pos[t] += 1;
-            if !do_op(t, k, c.threads[t][k], &shared, &locals[t], &st, budget, &live) {
+            if !do_op(t, k, c.threads[t][k], &shared, &locals, &st, budget, &live) {
                 break;
             }
         }
@@ -260,18 +282,19 @@ pub fn run_case(c: &Case, budget: u64, forced: Option<Vec<u8>>) -> RunOut {
         std::thread::scope(|sc| {
             for (t, ops) in c.threads.iter().enumerate() {
                 let sched = sched.clone();
-                let (inj, rings) = (inj.clone(), rings.clone());
-                let (shared, local, st, live) = (&shared, &locals[t], &st, &live);
+                let (inj, rings, overlaps) = (inj.clone(), rings.clone(), overlaps.clone());
+                let (shared, locals, st, live) = (&shared, &locals, &st, &live);
                 let (rng, retries) = (c.rng.clone(), c.retries.clone());
                 sc.spawn(move || {
                     crossbeam_deque::set_group(Some(inj));
                     st3::fifo::set_group(Some(rings));
+                    st3::fifo::set_overlap_counter(Some(overlaps));
                     shim_sched::reset_thread_state();
                     shim_sched::set_rng_script(rng);
                     shim_sched::set_retry_script(retries);
                     sched.enter(t);
                     for (k, op) in ops.iter().enumerate() {
-                        if !do_op(t, k, *op, shared, local, st, budget, live) {
+                        if !do_op(t, k, *op, shared, locals, st, budget, live) {
                             sched.abort();
                             break;
                         }
@@ -285,8 +308,10 @@ pub fn run_case(c: &Case, budget: u64, forced: Option<Vec<u8>>) -> RunOut {
                     g.injector_pushes += cs.injector_pushes;
                     g.injector_retries += cs.injector_retries;
                     g.ring_push_full += cs.ring_push_full;
+                    g.lock_contended += cs.lock_contended;
                     crossbeam_deque::set_group(None);
                     st3::fifo::set_group(None);
+                    st3::fifo::set_overlap_counter(None);
                 });
             }
         });
@@ -295,6 +320,9 @@ pub fn run_case(c: &Case, budget: u64, forced: Option<Vec<u8>>) -> RunOut {
     }
 
     out.counters = st.counters.lock().unwrap().clone();
+    out.owner_overlaps = overlaps.load(Ordering::SeqCst);
+    out.foreign_pushes = st.foreign_pushes.load(Ordering::SeqCst) as u64;
+    out.lock_contended = out.counters.lock_contended;
     out.pushed = st.pushed.lock().unwrap().clone();
     out.popped = st.popped.lock().unwrap().clone();
     out.push_after_victim = st.push_after_victim.load(Ordering::SeqCst);
@@ -353,5 +381,6 @@ pub fn run_case(c: &Case, budget: u64, forced: Option<Vec<u8>>) -> RunOut {
     }
     crossbeam_deque::set_group(None);
     st3::fifo::set_group(None);
+    st3::fifo::set_overlap_counter(None);
     out
 }
